@@ -514,6 +514,8 @@ def task_bounds(systems):
                     if u != float("inf"):
                         return False
                     continue
+                if isinstance(u, float) and (u != u or u in (float("inf"), float("-inf"))):
+                    return False  # a species that contains a tracked element has a finite bound
                 ut = lift(u)
                 if twin:
                     ut = ut - 1
